@@ -13,7 +13,7 @@
 From Coq Require Import String ZArith List Bool Arith.
 From SK Require Import Model.Skel Spec.Cache Model.Cache Proofs.CacheInv
      Proofs.CacheSkel Proofs.CacheLin Proofs.CacheCheck Proofs.CacheTerm
-     Gen.Skeleton.
+     Model.CachePath Proofs.CachePath Gen.Skeleton Gen.XCache.
 Import ListNotations.
 Open Scope Z_scope.
 
@@ -120,6 +120,110 @@ Proof.
   - intros p q Hp Hq. apply (wl_mutex gen_sk W progs sched p q Hp Hq).
   - apply (wl_no_deadlock gen_sk W).
 Qed.
+
+(* ---- MPCacheBase.__init__, paths, context manager, class layout -------- *)
+(* (Gen/XCache.v, translator/plugins/cache.py: symbolic evaluation of the
+   path expressions; locals and private helpers are resolved) *)
+
+(* __init__ creates exactly the two locks the skeletons acquire *)
+Theorem C19_init_creates_both_locks :
+  lock_attrs = ["global_lock"; "cache_lock"]%string \/
+  lock_attrs = ["cache_lock"; "global_lock"]%string.
+Proof. vm_compute. auto. Qed.
+
+(* processes that agree on global_path (and cache_id) use the SAME lock
+   files, whatever else differs (cache_type, key, hash seed, pid ...) *)
+Theorem C19_lock_files_shared : forall e e',
+  e "global_path"%string = e' "global_path"%string ->
+  e "cache_id"%string = e' "cache_id"%string ->
+  inst e lock_path_cache_lock = inst e' lock_path_cache_lock /\
+  inst e lock_path_global_lock = inst e' lock_path_global_lock.
+Proof.
+  intros e e' Hg Hi. split.
+  - apply vars_in_inst with (vs := ["global_path"; "cache_id"]%string);
+      [vm_compute; reflexivity|].
+    intros v [<-|[<-|[]]]; assumption.
+  - apply vars_in_inst with (vs := ["global_path"]%string);
+      [vm_compute; reflexivity|].
+    intros v [<-|[]]; assumption.
+Qed.
+
+(* the two locks are different files - unless the cache is called
+   "all_global" (boundary: then cache lock and global lock coincide) *)
+Theorem C19_lock_files_distinct : forall e,
+  e "cache_id"%string <> "all_global"%string ->
+  inst e lock_path_cache_lock <> inst e lock_path_global_lock.
+Proof.
+  intros e Hn E. apply Hn.
+  unfold lock_path_cache_lock, lock_path_global_lock in E.
+  cbn [inst map inst_comp inst_atom] in E.
+  inversion E as [[H]].
+  change "all_global.lock"%string
+    with (String.append "all_global" ".lock") in H.
+  apply append_inv_tail in H. exact H.
+Qed.
+
+(* all four operations open the same file for the same key ... *)
+Theorem C19_db_paths_agree :
+  ppath_eqb db_path_get db_path_set = true /\
+  ppath_eqb db_path_get db_path_bulk_set = true /\
+  ppath_eqb db_path_get db_path_unset = true /\
+  ppath_eqb db_path_get (base_path ++ [[PVar "key"]])%list = true.
+Proof. vm_compute. repeat split; reflexivity. Qed.
+
+(* ... different keys get different files (no foreign key's value) ... *)
+Theorem C19_db_path_injective_in_key : forall e k1 k2,
+  inst (set_var e "key" k1) db_path_get = inst (set_var e "key" k2) db_path_get
+  -> k1 = k2.
+Proof.
+  intros e k1 k2. apply whole_var_injective. vm_compute. reflexivity.
+Qed.
+
+(* ... the file depends on nothing but (global_path, cache_type, cache_id,
+   key): every process computes the same file ... *)
+Theorem C19_db_path_shared : forall e e',
+  (forall v, In v ["global_path"; "cache_type"; "cache_id"; "key"]%string ->
+             e v = e' v) ->
+  inst e db_path_get = inst e' db_path_get.
+Proof.
+  intros e e'. apply vars_in_inst. vm_compute. reflexivity.
+Qed.
+
+(* ... and a db file is never a lock file *)
+Theorem C19_db_file_is_not_a_lock_file : forall e e',
+  inst e db_path_get <> inst e' lock_path_cache_lock /\
+  inst e db_path_get <> inst e' lock_path_global_lock.
+Proof.
+  intros e e'. split; intros E; vm_compute in E; inversion E.
+Qed.
+
+(* `with cache:` does nothing: __enter__ returns self, neither __enter__ nor
+   __exit__ touches a lock, a record or a file *)
+Theorem C19_context_manager_is_noop :
+  enter_returns_self = true /\
+  existsb touches_shared sk_cache_enter = false /\
+  existsb touches_shared sk_cache_exit = false /\
+  existsb touches_shared sk_cache_base_exit = false.
+Proof. vm_compute. repeat split; reflexivity. Qed.
+
+(* the abstract interface has no behaviour of its own and MPCacheSimple
+   implements all of it; MPCache (the default type) is MPCacheSimple with
+   nothing overridden - so the modelled methods are the ones that run *)
+Theorem C19_interface_fully_implemented :
+  forallb (fun m => existsb (String.eqb m) simple_methods) abstract_methods
+    = true /\
+  forallb (fun m => existsb (String.eqb m) simple_methods)
+          ["get"; "set"; "bulk_set"; "unset"]%string = true /\
+  simple_bases = ["MPCacheBase"]%string /\
+  mpcache_bases = ["MPCacheSimple"]%string /\
+  mpcache_own_methods = [].
+Proof. vm_compute. repeat split; reflexivity. Qed.
+
+(* the open-retry handler of get is bounded (it is dead code where dbm.gnu
+   does not exist; the model never takes it) *)
+Theorem C19_get_retry_bounded :
+  0 <= GET_MAX_OPEN_RETRY /\ 0 <= GET_RETRY_SLEEP.
+Proof. vm_compute. split; discriminate. Qed.
 
 (* ---- the executable checker used on observed histories is sound ------ *)
 (* T2-facing: every chronological history the harness accepts through
@@ -261,6 +365,16 @@ Print Assumptions C19_real_time_order.
 Print Assumptions C19_no_deadlock.
 Print Assumptions C19_no_op_fails.
 Print Assumptions C19_current_code.
+Print Assumptions C19_init_creates_both_locks.
+Print Assumptions C19_lock_files_shared.
+Print Assumptions C19_lock_files_distinct.
+Print Assumptions C19_db_paths_agree.
+Print Assumptions C19_db_path_injective_in_key.
+Print Assumptions C19_db_path_shared.
+Print Assumptions C19_db_file_is_not_a_lock_file.
+Print Assumptions C19_context_manager_is_noop.
+Print Assumptions C19_interface_fully_implemented.
+Print Assumptions C19_get_retry_bounded.
 Print Assumptions C19_checker_sound.
 Print Assumptions C19_run_length_bounded.
 Print Assumptions C19_maximal_run_exists.
